@@ -1,6 +1,8 @@
 (* C01 — Selected data are the stored samples at the selected coordinates (all formats).  Only statements here.
    Model / spec / wire: Model/DataSet.v (on top of Model/Select.v, Base/NdArray.v, Model/Flags.v);
-   proofs: Proofs/DataSetBaseP.v, DataSetP.v, DataSetTopP.v, DataSetExP.v, DataSetSensP.v.
+   proofs: Proofs/DataSetBaseP.v, DataSetP.v, DataSetTopP.v, DataSetExP.v, DataSetSensP.v;
+   data sets opened with a preselection: Model/DataSetPre.v, Proofs/DataSetPreP.v (time / frequency axes: C17's
+   Model/TimeFreq.v, Proofs/TimeFreqP.v, imported unchanged).
 
    Reading guide.  [run c (start c) h = Some d]: the history h of select() calls, indexer acquisitions
    (x = d.vis | d.flags | d.weights | d.raw_flags | d.timestamps), reads and observations was carried out from the
@@ -11,8 +13,9 @@
 From Coq Require Import ZArith QArith List Bool String.
 From KV Require Import Base.Sx Base.Str Base.SelSlice Base.PySlice Base.AxisIndex Base.NdArray Gen.Generated
   Model.Flags Model.DataSet Proofs.DataSetBaseP Proofs.DataSetP Proofs.DataSetTopP Proofs.DataSetExP
-  Proofs.DataSetSensP.
-From KV Require Model.Select Proofs.SelectP.
+  Proofs.DataSetSensP Model.DataSetPre Proofs.DataSetPreP
+  Model.DataSetFreq Proofs.DataSetFreqP Model.DataSetDims Proofs.DataSetDimsP.
+From KV Require Model.Select Proofs.SelectP Model.TimeFreq Proofs.TimeFreqP.
 Import ListNotations.
 Open Scope Z_scope.
 
@@ -377,3 +380,278 @@ Theorem C01_timestamps_refuted_before_fix :
   /\ labels_of (index_time_prefix ex_v2_f17 (Select.init ex_obs2) (arange [3] 0) []) = None.
 Proof. exact timestamps_refuted_before_fix. Qed.
 Print Assumptions C01_timestamps_refuted_before_fix.
+
+(* ------------------------------------------------------------------ v4 data sets opened WITH a preselection *)
+
+(* Reading guide.  [st] describes what is stored: (s_T, s_F, s_B) chunk-store arrays and the telstate attributes of the
+   two axes.  [open_pre st pd pc = Some o]: katdal.open(..., preselect = dict(dumps = pd, channels = pc)) (a key may
+   be absent; bounds may be None / negative: slice.indices) yields the subset of dumps o_a .. o_b - 1 and channels
+   o_c .. o_d - 1 with the spectral window o_w = SpectralWindow.subrange (as regenerated from the source).
+   [served S o] = S[o_a : o_b, o_c : o_d, :] is what the data source hands to the data set.  c is the opened data set
+   ([pre_ok]: it has the shape of the subset). *)
+
+(* which preselections open, and onto what: the normalised non-empty ranges inside the stored axes, all of them *)
+Theorem C01_preselect_opens : forall st pd pc, 0 <= s_T st -> 0 < s_F st ->
+  (forall o, open_pre st pd pc = Some o ->
+     (o_a o, o_b o) = norm (s_T st) pd /\ (o_c o, o_d o) = norm (s_F st) pc
+     /\ 0 <= o_a o /\ o_a o < o_b o /\ o_b o <= s_T st /\ 0 <= o_c o /\ o_c o < o_d o /\ o_d o <= s_F st
+     /\ TimeFreq.s_n (o_w o) = o_d o - o_c o)
+  /\ (fst (norm (s_T st) pd) < snd (norm (s_T st) pd) -> fst (norm (s_F st) pc) < snd (norm (s_F st) pc) ->
+      exists o, open_pre st pd pc = Some o).
+Proof. exact preselect_opens. Qed.
+Print Assumptions C01_preselect_opens.
+
+(* C01_elements for the opened subset, in STORED coordinates: for every stored content S, every history, every
+   continuation and every answered second-stage index, element (i, j, l) of x[ix2] is the stored sample at
+   (o_a + dumps[pt[i]], o_c + channels[pf[j]], corr_products[pb[l]]) -- dumps / channels / corr_products being those
+   the data set reported when x was acquired *)
+Theorem C01_preselect_elements : forall st o c S h1 k h2 d1 d2 ix2 out, c_fmt c = V4 -> pre_ok st o c -> k <> KTime ->
+  run c (start c) h1 = Some d1 ->
+  run c (start c) (h1 ++ OAcquire k :: h2) = Some d2 ->
+  index_op (served S o) d2 (List.length (ds_ixs d1)) ix2 = Ok out ->
+  let s := ds_sel d1 in
+  exists pt pf pb,
+    resolve_keep (zlen (dumps s)) (ix_at ix2 3 0) = Ok pt
+    /\ resolve_keep (zlen (channels s)) (ix_at ix2 3 1) = Ok pf
+    /\ resolve_keep (zlen (cp_idx s)) (ix_at ix2 3 2) = Ok pb
+    /\ nd_shape out = [zlen pt; zlen pf; zlen pb]
+    /\ forall i j l, 0 <= i < zlen pt -> 0 <= j < zlen pf -> 0 <= l < zlen pb ->
+         get (nd_body out) [i; j; l]
+         = get S [o_a o + znth (dumps s) (znth pt i); o_c o + znth (channels s) (znth pf j);
+                  znth (cp_idx s) (znth pb l)].
+Proof. exact pre_elements. Qed.
+Print Assumptions C01_preselect_elements.
+
+(* on labels (what crosses the wire): the executable spec answers, and every element of the model answer is the
+   C-order position IN THE STORED ARRAY that the spec lists *)
+Theorem C01_preselect_element_labels : forall st o c h1 k h2 d1 d2 ix2 out, c_fmt c = V4 -> pre_ok st o c ->
+  k <> KTime -> o_b o <= s_T st -> o_d o <= s_F st ->
+  run c (start c) h1 = Some d1 ->
+  run c (start c) (h1 ++ OAcquire k :: h2) = Some d2 ->
+  index_op (served (stored_labels_of st k) o) d2 (List.length (ds_ixs d1)) ix2 = Ok out ->
+  let s := ds_sel d1 in
+  exists pt pf pb,
+    spec_index_pre st o s k ix2
+    = Ok ([zlen pt; zlen pf; zlen pb],
+          flat_map (fun i => flat_map (fun j => map (fun l =>
+            pos3 (s_F st) (s_B st) (o_a o + znth (dumps s) i) (o_c o + znth (channels s) j) (znth (cp_idx s) l))
+            pb) pf) pt)
+    /\ nd_shape out = [zlen pt; zlen pf; zlen pb]
+    /\ forall i j l, 0 <= i < zlen pt -> 0 <= j < zlen pf -> 0 <= l < zlen pb ->
+         get (nd_body out) [i; j; l]
+         = Leaf (pos3 (s_F st) (s_B st) (o_a o + znth (dumps s) (znth pt i)) (o_c o + znth (channels s) (znth pf j))
+                      (znth (cp_idx s) (znth pb l))).
+Proof. exact pre_element_labels. Qed.
+Print Assumptions C01_preselect_element_labels.
+
+(* the timestamps array of the subset: element i is the stored timestamp of dump o_a + dumps[pt[i]] *)
+Theorem C01_preselect_elements_timestamps : forall st o c S h1 h2 d1 d2 ix2 out, c_fmt c = V4 -> pre_ok st o c ->
+  run c (start c) h1 = Some d1 ->
+  run c (start c) (h1 ++ OAcquire KTime :: h2) = Some d2 ->
+  index_op (served1 S o) d2 (List.length (ds_ixs d1)) ix2 = Ok out ->
+  let s := ds_sel d1 in
+  exists pt,
+    resolve_keep (zlen (dumps s)) (ix_at ix2 1 0) = Ok pt
+    /\ nd_shape out = [zlen pt]
+    /\ forall i, 0 <= i < zlen pt -> get (nd_body out) [i] = get S [o_a o + znth (dumps s) (znth pt i)].
+Proof. exact pre_time_elements. Qed.
+Print Assumptions C01_preselect_elements_timestamps.
+
+(* "freqs are the labels of those same channels": after every history on the opened subset, d.freqs has one entry per
+   channel and freqs[j] is the DOCUMENTED centre frequency center_freq + (k - n_chans // 2) * bandwidth / n_chans of the
+   STORED channel k = o_c + channels[j] -- the channel whose samples C01_preselect_elements delivers at position j.
+   (The window is SpectralWindow.subrange as regenerated from the source: a change of its centre-channel arithmetic
+   changes Generated.gen_spw_subrange and this theorem no longer checks.) *)
+Theorem C01_preselect_freqs : forall st pd pc o c h d, 0 <= s_T st -> 0 < s_F st -> open_pre st pd pc = Some o ->
+  c_fmt c = V4 -> pre_ok st o c -> run c (start c) h = Some d ->
+  let s := ds_sel d in
+  zlen (pre_freqs o s) = zlen (channels s)
+  /\ forall j, 0 <= j < zlen (channels s) ->
+       (nth (Z.to_nat j) (pre_freqs o s) 0
+        == TimeFreq.spec_chan_freq (s_centre st) (s_bw st) (s_F st) 1 (o_c o + znth (channels s) j))%Q.
+Proof. exact pre_freq_labels. Qed.
+Print Assumptions C01_preselect_freqs.
+
+(* "timestamps are the labels of those same dumps": timestamps[i] is the documented time (sync_time + first_timestamp
+   + k * int_time + time_offset, minus the CBF-dump fix of old captures: C17) of the STORED dump k = o_a + dumps[i] *)
+Theorem C01_preselect_timestamps : forall st o c h d, c_fmt c = V4 -> c_dup c = false -> c_ts c = pre_ts st o ->
+  pre_ok st o c -> run c (start c) h = Some d ->
+  let s := ds_sel d in
+  zlen (timestamps c s) = zlen (dumps s)
+  /\ forall i, 0 <= i < zlen (dumps s) ->
+       (nth (Z.to_nat i) (timestamps c s) 0
+        == TimeFreq.spec_timestamp (s_tm st) (o_a o + znth (dumps s) i))%Q.
+Proof. exact pre_timestamp_labels. Qed.
+Print Assumptions C01_preselect_timestamps.
+
+(* the stored coordinates named by a selection on the subset stay inside the preselected ranges (hence inside the
+   stored axes), one per dump / channel of the data set *)
+Theorem C01_preselect_coordinates : forall st pd pc o c h d, 0 <= s_T st -> 0 <= s_F st ->
+  open_pre st pd pc = Some o -> pre_ok st o c -> run c (start c) h = Some d ->
+  let s := ds_sel d in
+  Forall (fun p => o_a o <= p < o_b o) (stored_dumps o s) /\ Forall (fun p => o_c o <= p < o_d o) (stored_channels o s)
+  /\ 0 <= o_a o /\ o_b o <= s_T st /\ 0 <= o_c o /\ o_d o <= s_F st
+  /\ zlen (stored_dumps o s) = zlen (dumps s) /\ zlen (stored_channels o s) = zlen (channels s).
+Proof. exact pre_coordinates. Qed.
+Print Assumptions C01_preselect_coordinates.
+
+(* the configuration the wire function runs satisfies the hypotheses above by construction *)
+Theorem C01_preselect_wire_cfg : forall st o c0,
+  c_fmt (pre_cfg st o c0) = V4 /\ c_dup (pre_cfg st o c0) = false /\ c_ts (pre_cfg st o c0) = pre_ts st o
+  /\ c_obs (pre_cfg st o c0) = c_obs c0
+  /\ (pre_okb st o (pre_cfg st o c0) = true -> pre_ok st o (pre_cfg st o c0)).
+Proof. exact preselect_wire_cfg. Qed.
+Print Assumptions C01_preselect_wire_cfg.
+
+(* non-vacuity: 9 stored channels (ODD), preselect channels = slice(2, -3) = 2:6 (first + last EVEN), dumps = 3:7 of 8;
+   after select(channels=[1, 3], dumps=slice(1, 3)) the data set's channels [1, 3] are stored channels [3, 5] (one
+   below / one above the centre channel 9 // 2 = 4 at 1284: freqs 1283, 1285), its dumps [1, 2] stored dumps [4, 5]
+   (times t0 + 4 * 8, t0 + 5 * 8), and vis[0, :, 1] holds stored positions (4, 3, 1) and (4, 5, 1) *)
+Theorem C01_preselect_example :
+  exists o, open_pre ex_store ex_pd ex_pc = Some o
+    /\ (o_a o, o_b o, o_c o, o_d o) = (3, 7, 2, 6)
+    /\ pre_okb ex_store o (pre_cfg ex_store o ex_c0) = true
+    /\ option_map (fun d => (stored_dumps o (ds_sel d), stored_channels o (ds_sel d)))
+         (run (pre_cfg ex_store o ex_c0) (start (pre_cfg ex_store o ex_c0)) [OSelect kw_pre])
+       = Some ([4; 5], [3; 5])
+    /\ option_map (fun d => map Qred (pre_freqs o (ds_sel d)))
+         (run (pre_cfg ex_store o ex_c0) (start (pre_cfg ex_store o ex_c0)) [OSelect kw_pre])
+       = Some [1283; 1285]%Q
+    /\ option_map (fun d => map Qred (spec_pre_freqs ex_store o (ds_sel d)))
+         (run (pre_cfg ex_store o ex_c0) (start (pre_cfg ex_store o ex_c0)) [OSelect kw_pre])
+       = Some [1283; 1285]%Q
+    /\ option_map (fun d => map Qred (timestamps (pre_cfg ex_store o ex_c0) (ds_sel d)))
+         (run (pre_cfg ex_store o ex_c0) (start (pre_cfg ex_store o ex_c0)) [OSelect kw_pre])
+       = Some [1600000132; 1600000140]%Q
+    /\ (match run (pre_cfg ex_store o ex_c0) (start (pre_cfg ex_store o ex_c0))
+                [OSelect kw_pre; OAcquire KVis; OSelect []] with
+        | Some d => labels_of (index_op (served (stored_labels_of ex_store KVis) o) d 0 [AInt 0; full; AInt 1])
+        | None => None end)
+       = Some ([1; 2; 1], [pos3 9 4 4 3 1; pos3 9 4 4 5 1]).
+Proof. exact example_pre. Qed.
+Print Assumptions C01_preselect_example.
+
+(* ------------------------------------------------------------------ the frequency axis of the HDF5 readers (v1, v2, v3) *)
+
+(* Reading guide.  [a : fattrs] is what the FILE (and the open() call) says about the frequency axis; [window_of f a]
+   is the SpectralWindow the reader of format f builds from it (attribute names, channel-width expression, sideband
+   default, v3 receiver table, "fake UHF" rule, bandwidth workaround and the order of the centre-frequency overrides
+   re-translated from the source); [spec_freq f a k] the documented frequency of stored channel k. *)
+
+(* tie: which stored attribute feeds which SpectralWindow parameter, and the constants, as found in the source *)
+Theorem C01_freq_axis_source :
+  (gen_spw_default_sideband = -1 /\ gen_v1_sideband = None /\ gen_v2_sideband = None
+   /\ gen_v1_freq_attrs = [("centre_freq", "center_frequency_hz"); ("channel_width", "channel_bandwidth_hz");
+                           ("num_chans", "num_freq_channels")]%string
+   /\ gen_v2_freq_attrs = [("num_chans", "n_chans"); ("bandwidth", "bandwidth")]%string
+   /\ gen_v2_centre_sensors = ("2.1", ("RFE/center-frequency-hz", "RFE/rfe7.lo1.frequency"))%string)
+  /\ (gen_v3_spw_prog = [1; 2; 3; 4; 5; 6; 7; 8; 9; 10]
+      /\ gen_v3_rx_table = [("l", ("L", (Some 1284000000, 1))); ("u", ("UHF", (Some 816000000, 1)));
+                            ("x", ("Ku", (None, 1)))]%string
+      /\ gen_v3_rx_default = (""%string, (None, 1)) /\ gen_v3_bw_workaround = (857152196, 856000000)
+      /\ gen_v3_fake_uhf = ("UHF"%string, (856000000, (428000000, -1))) /\ gen_v3_ku_band = "Ku"%string
+      /\ gen_v3_default_centre = 0).
+Proof. exact (conj kat7_axis_source v3_source). Qed.
+Print Assumptions C01_freq_axis_source.
+
+(* every reader builds a window (never refuses), with the channel count of the file, the lower sideband exactly when
+   the documented axis is flipped, and channel k at its DOCUMENTED frequency: v1 centre - (k - n // 2) * width,
+   v2 (sensor [- 4200 MHz]) - (k - n // 2) * bandwidth / n, v3 receiver table / fake UHF / L0 attribute / argument *)
+Theorem C01_freq_axis_documented : forall f a, f <> V4 -> 0 < fa_n a ->
+  exists w, window_of f a = Some w /\ TimeFreq.s_n w = fa_n a
+    /\ TimeFreq.s_side w = (if spec_lower f a then -1 else 1)
+    /\ forall k, (TimeFreq.chan_freq w k == spec_freq f a k)%Q.
+Proof. exact axis_documented. Qed.
+Print Assumptions C01_freq_axis_documented.
+
+(* "freqs are the labels of those same channels", v1 / v2 / v3: after every history d.freqs has one entry per channel
+   and freqs[j] is the documented frequency of STORED channel channels[j] (the channel C01_elements delivers at j) *)
+Theorem C01_freqs_documented : forall f a w c h d, f <> V4 -> 0 < fa_n a -> window_of f a = Some w -> cfg_ok c ->
+  nF c = fa_n a -> run c (start c) h = Some d ->
+  let s := ds_sel d in
+  zlen (axis_freqs w s) = zlen (channels s)
+  /\ forall j, 0 <= j < zlen (channels s) ->
+       (nth (Z.to_nat j) (axis_freqs w s) 0 == spec_freq f a (znth (channels s) j))%Q.
+Proof. exact freqs_history. Qed.
+Print Assumptions C01_freqs_documented.
+
+(* the visibilities are conjugated exactly when the window has the lower sideband = exactly when the documented axis
+   is flipped (two separately translated facts meet: .conjugate() per vis property, sideband per SpectralWindow call);
+   v4: upper sideband, never conjugated *)
+Theorem C01_conjugation_iff_flipped_spectrum :
+  (forall f a w c s, c_fmt c = f -> f <> V4 -> 0 < fa_n a -> window_of f a = Some w ->
+     c_upper c = (TimeFreq.s_side w =? 1) ->
+     conv_of c s KVis = CVis (TimeFreq.s_side w =? -1) /\ (TimeFreq.s_side w =? -1) = spec_lower f a)
+  /\ (forall c s centre bw n, c_fmt c = V4 -> 0 < n ->
+        conv_of c s KVis = CVis false /\ TimeFreq.s_side (TimeFreq.v4_spw centre bw n) = 1).
+Proof. exact (conj conj_iff_lower conj_v4). Qed.
+Print Assumptions C01_conjugation_iff_flipped_spectrum.
+
+(* non-vacuity: KAT-7 axes run downwards, the LO correction of old v2 files, MeerKAT L band, "fake UHF" (with the CBF
+   bandwidth bug), L0 attribute overridden by the argument, unknown band -> 0 Hz *)
+Theorem C01_freq_axis_examples :
+  map (fun k => Qred (spec_freq V1 (ex_fa 1822 1 4 false "" None None) k)) [0; 1; 2; 3] = [1824; 1823; 1822; 1821]%Q
+  /\ option_map (fun w => map Qred (TimeFreq.freqs_full w)) (window_of V1 (ex_fa 1822 1 4 false "" None None))
+     = Some [1824; 1823; 1822; 1821]%Q
+  /\ option_map (fun w => map Qred (TimeFreq.freqs_full w)) (window_of V2 (ex_fa 6022000000 4 4 true "" None None))
+     = Some [1822000002; 1822000001; 1822000000; 1821999999]%Q
+  /\ option_map (fun w => map Qred (TimeFreq.freqs_full w)) (window_of V3 (ex_fa 0 10 5 false "l" None None))
+     = Some [1283999996; 1283999998; 1284000000; 1284000002; 1284000004]%Q
+  /\ option_map (fun w => (TimeFreq.s_side w, map Qred (TimeFreq.freqs_full w)))
+       (window_of V3 (ex_fa 0 857152196 2 false "u" None None))
+     = Some (-1, [856000000; 428000000]%Q)
+  /\ spec_lower V3 (ex_fa 0 857152196 2 false "u" None None) = true
+  /\ option_map (fun w => (TimeFreq.s_side w, map Qred (TimeFreq.freqs_full w)))
+       (window_of V3 (ex_fa 0 544000000 2 false "u" (Some 900000000%Q) (Some 1000000000%Q)))
+     = Some (1, [728000000; 1000000000]%Q)
+  /\ option_map (fun w => map Qred (TimeFreq.freqs_full w)) (window_of V3 (ex_fa 0 4 2 false "s" None None))
+     = Some [-(2); 0]%Q.
+Proof. exact example_axes. Qed.
+Print Assumptions C01_freq_axis_examples.
+
+(* ------------------------------------------------------------------ dimensionality of answers, keepdims *)
+
+(* tie: in /repo H5DataV2 / H5DataV3 append, as LAST transform of vis / flags / weights and iff the constructor argument
+   keepdims (default False) is set, the function that re-inserts one axis per scalar item of the second-stage index
+   (padded / truncated to three items) *)
+Theorem C01_keepdims_source : keepdims_glue = [("H5DataV2", true); ("H5DataV3", true)]%string.
+Proof. reflexivity. Qed.
+Print Assumptions C01_keepdims_source.
+
+(* for every data set, selection, kind, stored content and answered ix2: what the indexer class returns ([index_np]:
+   a scalar index drops its axis, numpy / LazyIndexer / DaskLazyIndexer) has the SAME elements in the SAME order as the
+   canonical answer of C01_elements (so every statement about elements carries over), its shape is the canonical shape
+   without the scalar-indexed axes, it has as many axes as there are non-scalar items, and as many elements;
+   with keepdims=False that is the answer, with keepdims=True (v2 / v3; vis, flags, weights) the answer has the
+   canonical shape: always 3 axes, every scalar-indexed one of length 1 *)
+Theorem C01_answer_dimensions : forall c s k S0 ix2 out, index S0 (acquire c s k) ix2 = Ok out ->
+  exists out', index_np S0 (acquire c s k) ix2 = Ok out'
+    /\ flatten (nd_body out') = flatten (nd_body out)
+    /\ nd_shape out' = drop_axes (scalar_axes (naxes k) ix2) (nd_shape out)
+    /\ size (nd_shape out') = size (nd_shape out)
+    /\ List.length (nd_shape out') = List.length (filter negb (scalar_axes (naxes k) ix2))
+    /\ (forall f, answer_shape f false k ix2 (nd_shape out') = nd_shape out')
+    /\ (forall f, (f = V2 \/ f = V3) -> k <> KTime -> k <> KRaw ->
+          answer_shape f true k ix2 (nd_shape out') = nd_shape out).
+Proof. exact answer_dims. Qed.
+Print Assumptions C01_answer_dimensions.
+
+(* FINDING C01x-F1 (repaired): before the repair the v2 / v3 flags answer for a selection that is scalar on all three
+   axes had shape (1,) instead of (), and (1, 1, 1, 1) instead of (1, 1, 1) with keepdims=True *)
+Theorem C01_flags_dimensions_refuted_before_fix :
+  answer_shape V3 false KFlags [AInt 0; AInt 0; AInt 0] (flags_np_shape_before_fix []) = [1]
+  /\ answer_shape V3 true KFlags [AInt 0; AInt 0; AInt 0] (flags_np_shape_before_fix []) = [1; 1; 1; 1]
+  /\ answer_shape V3 false KFlags [AInt 0; AInt 0; AInt 0] [] = []
+  /\ answer_shape V3 true KFlags [AInt 0; AInt 0; AInt 0] [] = [1; 1; 1].
+Proof. exact flags_dims_refuted_before_fix. Qed.
+Print Assumptions C01_flags_dimensions_refuted_before_fix.
+
+Theorem C01_answer_dimensions_example :
+  drop_axes (scalar_axes 3 [full; AInt 2; AList [0; 3]]) [5; 1; 2] = [5; 2]
+  /\ answer_shape V3 true KVis [full; AInt 2; AList [0; 3]] [5; 2] = [5; 1; 2]
+  /\ answer_shape V3 false KVis [full; AInt 2; AList [0; 3]] [5; 2] = [5; 2]
+  /\ answer_shape V4 true KVis [AInt 1] [4; 6] = [4; 6]
+  /\ answer_shape V2 true KVis [AInt 1] [4; 6] = [1; 4; 6]
+  /\ answer_shape V2 true KTime [AInt 1] [] = [].
+Proof. exact example_dims. Qed.
+Print Assumptions C01_answer_dimensions_example.
